@@ -32,17 +32,6 @@ Excludes: e.g. `e.Request.Header.Del("Authorization")` before rendering, or drai
 the render stream compares only the request fields it generated. -/
 theorem renderers_read_only : Generated.C20.rendererWritesToEvent = [] := by decide
 
-/-- The only call site hands `Log` an event whose `Response` is the address of an `http.Response` literal
-(in place or through a local assigned once from it): never nil — the renderers dereference it unchecked and the
-model's `Event` has no "nil response" case. Its `StatusCode` and `ContentLength` are fields of the very
-`ResponseWriter` that was handed to the handler (the capturing wrapper of `c20.capture`).
-Excludes: `Response` left nil on some path (a panic inside the request handler after the response was
-written), or status/size taken from somewhere other than the wrapper the stream checks. No C20 stream runs
-`ServeHTTP`. -/
-theorem call_site_pinned :
-    Generated.C20.eventSiteResponseIsLiteral = true ∧
-    Generated.C20.eventSiteStatusAndSizeFromHandlerWriter = true := by decide
-
 /-- which micro-step of the `Log` model an event of `Log` stands for (events are named by method / callee,
 `Pool.*` = on a package-level `sync.Pool`; helpers are followed) -/
 def opOfCall : String → Option Model.C20Log.Op
@@ -72,5 +61,18 @@ about one call.
 Excludes: a shared scratch buffer or template (seeded change m8: `b := template` with a package-level
 `[]byte`), which is correct for every single call and wrong only under an interleaving. -/
 theorem formatters_write_only_locals : Generated.C20.formatterSharedWrites = [] := by decide
+
+/-- `main.go` (no harness runs it): the function that builds the `proxy.HTTPProxy` literal passes the result of
+`logger.New(w, format)` as `Logger`, `format` being the configured access format with the two names `common` /
+`combined` replaced by the constants of the same name; it sets neither `UUID` nor `Time`, so the request id
+on the request path is `uuid.NewUUID` (`ToString` of the generator's value: `uuid_text_injective`,
+`uuid_format`) and `End` is `time.Now()`.
+Excludes: the two aliases swapped or pointing at another format, a logger other than the verified one (or one
+built from another format string) put into the proxy, a home-made id function in place of the UUID formatter. -/
+theorem main_wiring :
+    Generated.C20.mainFormatAliases = ["combined=CombinedFormat", "common=CommonFormat"] ∧
+    Generated.C20.mainLoggerFromNew = true ∧
+    Generated.C20.mainProxyKeys.contains "Logger" = true ∧
+    Generated.C20.mainProxyKeys.contains "UUID" = false ∧ Generated.C20.mainProxyKeys.contains "Time" = false := by decide
 
 end Fabio.Props.C20Facts
